@@ -15,13 +15,13 @@ from __future__ import annotations
 
 import ast
 
-from ..index import AnalysisError, call_name, norm, norm1
+from ..index import AnalysisError, call_name, norm, norm1, names_in
 from . import c08
 from .c06 import kpoint_action
 from ..index import ClassInfo, FunctionInfo
 from ..sem import Sem
 import re
-from .common import calls, enclosing, fctx, in_body, is_name, method_calls, pfind, pmatch, stmts
+from .common import calls, const_of, enclosing, fctx, in_body, is_name, method_calls, pfind, pmatch, stmts
 
 LEVEL = "other"
 EXPLANATION = (
@@ -98,8 +98,20 @@ def run(ctx) -> None:
                  f"{cn}.transform rebuilds the result with {kw}: a second operation (group products) would use other transforms")
     tt = idx.cls(TAB, "TABresult").methods.get("transform")
     r1.instance(tt.short)
-    t = norm(tt.node).replace(" ", "")
-    r1.check("{r:self.results[r].transform(sym)forrinself.results}" in t and "[sym.transform_reduced_vector(k,self.recip_lattice)forkinself.kpoints]" in t,
+    from .c16 import _dict_normal as _dn
+    TTS = Sem(idx, tt)
+    symp = tt.params[1]
+    okres = okk = False
+    for n_ in ast.walk(tt.node):
+        if isinstance(n_, ast.DictComp):
+            nf = _dn(TTS, n_, TTS.cfg.node(enclosing(TTS.pm, n_, ast.stmt)))
+            if nf is not None and nf[2] == "self.results" and nf[1] == f"self.results[{nf[0]}].transform({symp})" and not nf[3]:
+                okres = True
+        if isinstance(n_, (ast.ListComp, ast.GeneratorExp)) and len(n_.generators) == 1 and norm(n_.generators[0].iter) == "self.kpoints" and isinstance(n_.generators[0].target, ast.Name):
+            kv_ = n_.generators[0].target.id
+            if pmatch(n_.elt, f"{symp}.transform_reduced_vector({kv_}, self.recip_lattice)"):
+                okk = True
+    r1.check(okres and okk,
              "TABresult: every quantity and every k-point is mapped with the same operation", tt, tt.node,
              "TABresult.transform does not map all quantities and the k-points with the same operation", stmt="TAB transform")
     rd = idx.cls(RD, "ResultDict").methods.get("transform")
@@ -116,11 +128,59 @@ def run(ctx) -> None:
     r1.check(okrd, "ResultDict transforms every entry", rd, rd.node,
              "ResultDict.transform does not transform every entry", stmt="dict transform")
     ttf = idx.function(PS, "PointSymmetry.transform_tensor")
-    tf = norm(ttf.node).replace(" ", "")
-    r1.check("ifself.TR:transformTR(res)" in tf.replace("\n", "") and "ifself.Inv:transformInv(res)" in tf.replace("\n", "") and
-             "foriinrange(dim-rank,dim):" in tf and "res=self.rotate(" in tf,
+    TS = Sem(idx, ttf)
+    datap, rankp, trp, invp = ttf.params[1:5]
+    from .c17 import _fold_int_tuple
+    work = None     # the working array: the name passed to the in-place transforms and returned
+    rets_ = [s_ for s_ in stmts(ttf.node) if isinstance(s_, ast.Return) and isinstance(s_.value, ast.Name)]
+    work = rets_[0].value.id if len(rets_) == 1 else None
+    oktt = work is not None
+    why = ""
+    if oktt:
+        TS.keep_names = {work}
+        loops = [l for l in stmts(ttf.node) if isinstance(l, ast.For) and isinstance(l.target, ast.Name)]
+        rot_loops = [l for l in loops if any(isinstance(c_, ast.Call) and norm(c_.func) == "self.rotate" for c_ in ast.walk(l))]
+        oktt = len(rot_loops) == 1
+        why = "rotation loop not found" if not oktt else ""
+        if oktt:
+            l = rot_loops[0]
+            it = TS.rnorm(l.iter, TS.cfg.node(l)).replace(" ", "")
+            nd_forms = (f"len({work}.shape)", f"{work}.ndim", f"np.ndim({work})")
+            okit = any(it == f"range({n_}-{rankp},{n_})" for n_ in nd_forms)
+            asg = [s_ for s_ in l.body if isinstance(s_, ast.Assign) and norm(s_.targets[0]) == work]
+            okperm = False
+            if len(asg) == 1:
+                v_ = TS.resolve(asg[0].value, TS.cfg.node(asg[0]))
+                m_ = pmatch(v_, f"self.rotate({work}.transpose(P1_)).transpose(P2_)", {"P1_", "P2_"})
+                if m_ and m_[0][0] is v_:
+                    p1e, p2e = (ast.parse(m_[0][1][k_], mode="eval").body for k_ in ("P1_", "P2_"))
+                    okperm = True
+                    for nd in range(1, 6):
+                        for ax in range(nd):
+                            env = {l.target.id: ax, "__ndim__": nd}
+
+                            def fold(e_):
+                                e2 = ast.parse(norm(e_).replace(f"len({work}.shape)", f"{work}.ndim").replace(f"np.ndim({work})", f"{work}.ndim"), mode="eval").body
+                                return _fold_int_tuple(e2, env)
+                            try:
+                                p1, p2 = fold(p1e), fold(p2e)
+                            except AnalysisError:
+                                okperm = False
+                                break
+                            comp = tuple(p1[j] for j in p2) if len(p1) == len(p2) == nd else None
+                            if comp != tuple(range(nd)) or p1[-1] != ax:
+                                okperm = False
+            oktt = okit and okperm
+            why = "" if oktt else f"loop `{it}`, permutations ok: {okperm}"
+        for flag, fn_ in (("self.TR", trp), ("self.Inv", invp)):
+            cs_ = [c_ for c_ in ast.walk(ttf.node) if isinstance(c_, ast.Call) and isinstance(c_.func, ast.Name) and c_.func.id == fn_ and c_.args and norm(c_.args[0]) == work]
+            okc = len(cs_) == 1 and any(t_ == flag and p_ for t_, p_, _ in TS.conditions(enclosing(TS.pm, cs_[0], ast.stmt), resolve=False)) and \
+                len([1 for t_, p_, _ in TS.conditions(enclosing(TS.pm, cs_[0], ast.stmt), resolve=False)]) == 1
+            oktt = oktt and okc
+            why = why or ("" if okc else f"{fn_}({work}) is not applied exactly when {flag}")
+    r1.check(oktt,
              "transform_tensor: rotate the last `rank` axes, then apply the TR / inversion transform iff the operation contains it", ttf, ttf.node,
-             "transform_tensor no longer rotates exactly the tensor axes and applies TR/Inv transforms conditionally on the operation", stmt="transform_tensor")
+             f"transform_tensor no longer rotates exactly the tensor axes and applies TR/Inv transforms conditionally on the operation ({why})", stmt="transform_tensor")
 
     # ---------------------------------------------------------------- R07.2
     r2 = ctx.rule("R07.2", "group average = sum over all operations / number of operations", min_instances=2)
@@ -128,7 +188,25 @@ def run(ctx) -> None:
     for mname in ("symmetrize", "symmetrize_tensor"):
         m = pg.methods.get(mname)
         r2.instance(m.short)
-        hit = pmatch(m.node, "sum(ANY for S in self.symmetries) / self.size", {"S"})
+        MS2 = Sem(idx, m)
+        hit = []
+        for r_ in [s_ for s_ in stmts(m.node) if isinstance(s_, ast.Return) and s_.value is not None]:
+            v_ = MS2.resolve(r_.value, MS2.cfg.node(r_))
+            hh = pmatch(v_, "sum(ANY for S in self.symmetries) / self.size", {"S"}) or pmatch(v_, "sum(ANY for S in self.symmetries) / len(self.symmetries)", {"S"})
+            if hh and hh[0][0] is v_:
+                hit.append(r_)
+            elif isinstance(v_, ast.BinOp) and isinstance(v_.op, ast.Div) and norm(v_.right) in ("self.size", "len(self.symmetries)") and isinstance(v_.left, ast.Name):
+                # explicit accumulation loop: acc = 0 ; for s in self.symmetries: acc = acc + f(s)  /  acc += f(s)
+                acc = v_.left.id
+                lps = [l for l in stmts(m.node) if isinstance(l, ast.For) and norm(l.iter) == "self.symmetries" and isinstance(l.target, ast.Name)]
+                if len(lps) == 1 and len(lps[0].body) == 1:
+                    b_ = lps[0].body[0]
+                    okacc = (isinstance(b_, ast.AugAssign) and isinstance(b_.op, ast.Add) and norm(b_.target) == acc and lps[0].target.id in names_in(b_.value)) or \
+                        (isinstance(b_, ast.Assign) and norm(b_.targets[0]) == acc and isinstance(b_.value, ast.BinOp) and isinstance(b_.value.op, ast.Add)
+                         and acc in (norm(b_.value.left), norm(b_.value.right)) and lps[0].target.id in names_in(b_.value))
+                    init_ = [d for d in MS2.du.reaching(acc, MS2.cfg.node(lps[0])) if d.kind == "assign"]
+                    if okacc and len(init_) >= 1 and all(d.stmt is b_ or const_of(d.value) == 0 for d in init_):
+                        hit.append(r_)
         r2.check(len(hit) == 1, f"{mname}: Σ_s over self.symmetries divided by self.size", m, m.node,
                  f"PointGroup.{mname} is not (sum over all symmetries) / size: the symmetrised result is scaled or misses operations", stmt=mname)
     sz = pg.methods.get("size")
@@ -153,14 +231,28 @@ def run(ctx) -> None:
     par = [n for n in ast.walk(runf.node) if isinstance(n, ast.FunctionDef) and n.name == "paralfunc"]
     oksym = False
     if par:
-        ppm = fctx(par[0])[2]
-        for c_ in method_calls(par[0], "symmetrize"):
-            st_ = enclosing(ppm, c_, ast.stmt)
-            g_ = enclosing(ppm, c_, ast.If)
-            if norm(c_.func.value).endswith(".pointgroup") and isinstance(st_, ast.Assign) and c_.args and norm(st_.targets[0]) == norm(c_.args[0]) and st_.value is c_ \
-                    and g_ is not None and norm(g_.test) == "symmetrize" and in_body(g_.body, st_):
-                rets_ = [r_ for r_ in ast.walk(par[0]) if isinstance(r_, ast.Return) and r_.value is not None]
-                oksym = bool(rets_) and all(norm(r_.value) == norm(st_.targets[0]) for r_ in rets_)
+        PS_ = Sem(idx, par[0])
+        ppm = PS_.pm
+        rets_ = [r_ for r_ in ast.walk(par[0]) if isinstance(r_, ast.Return) and r_.value is not None]
+        seen_sym = seen_plain = False
+        okall = bool(rets_)
+        for r_ in rets_:
+            alts = PS_.alternatives(r_.value, PS_.cfg.node(r_))
+            conds = PS_.conditions(r_, resolve=False)
+            for v_ in alts:
+                is_sym = isinstance(v_, ast.Call) and isinstance(v_.func, ast.Attribute) and v_.func.attr == "symmetrize" and norm(v_.func.value).endswith(".pointgroup") and len(v_.args) == 1
+                if is_sym:
+                    seen_sym = True
+                    # reached only when symmetrisation is requested (explicit condition, or the alternative comes from the `if symmetrize:` arm)
+                    dd = [d for d in PS_.du.reaching(r_.value.id, PS_.cfg.node(r_)) if d.value is not None and "symmetrize(" in norm(d.value)] if isinstance(r_.value, ast.Name) else []
+                    okc = any(t_ == "symmetrize" and p_ for t_, p_, _ in conds) or any(any(t_ == "symmetrize" and p_ for t_, p_, _ in PS_.conditions(d.stmt, resolve=False)) for d in dd)
+                    okall = okall and okc
+                else:
+                    seen_plain = True
+                    dd = [d for d in PS_.du.reaching(r_.value.id, PS_.cfg.node(r_))] if isinstance(r_.value, ast.Name) else []
+                    plain_guard = any(t_ == "symmetrize" and p_ is False for t_, p_, _ in conds) or len(alts) > 1
+                    okall = okall and plain_guard
+        oksym = okall and seen_sym and seen_plain
     r3.check(oksym, "the per-K result is symmetrised with the system's point group", runf, par[0] if par else runf.node,
              "the per-K function no longer symmetrises its result with _system.pointgroup when asked to", stmt="paralfunc symmetrize")
     RS7 = Sem(idx, runf)
